@@ -2,7 +2,7 @@
 assumption audit, running both sides, comparison, evidence, verdict."""
 import hashlib, json, os, random, re, shutil, subprocess, sys, tempfile, time
 
-VERIF = '/verif'
+VERIF = os.environ.get('VERIF_ROOT') or os.path.dirname(os.path.dirname(os.path.abspath(__file__)))   # /verif, or a snapshot of it
 REPO = '/repo'
 BUILD = VERIF + '/build'
 COQ = VERIF + '/coq'
@@ -368,7 +368,7 @@ def proof_stage(run, pid, extra_files=()):
     regen_params(run)
     ok, log = build_coq()
     bad = forbidden_scan()
-    checker = 'cd /verif/coq && coq_makefile -f _CoqProject <all .v> -o Makefile && make -j%s  (full .vo build), then coqc Props/%s.v (Print Assumptions audit)' % (NPROC, pid)
+    checker = 'cd %s/coq &&' % VERIF + ' coq_makefile -f _CoqProject <all .v> -o Makefile && make -j%s  (full .vo build), then coqc Props/%s.v (Print Assumptions audit)' % (NPROC, pid)
     run.checker_cmd = checker
     if bad:
         run.add_violation('forbidden-construct', 'forbidden constructs in the Coq development: ' + '; '.join(bad[:5]),
